@@ -765,6 +765,9 @@ class TT():
             result = TT(cores_new)
 
         elif isinstance(other, int) or isinstance(other, float) or isinstance(other, complex) or isinstance(other, tn.Tensor) or isinstance(other, np.number):
+            if tn.is_tensor(other) and tn.numel(other) != 1:
+                raise InvalidArguments(
+                    'If a torch.Tensor is provided as second operand, it must have 1 element.')
             if (tn.is_tensor(other) and other.requires_grad) or any([c.requires_grad for c in self.cores]) or other != 0:
                 cores_new = [c+0 for c in self.cores]
                 cores_new[0] = cores_new[0] * other
@@ -923,6 +926,9 @@ class TT():
             torchtt.TT: the result.
         """
         if isinstance(other, int) or isinstance(other, float) or tn.is_tensor(other) or isinstance(other, np.number):
+            if tn.is_tensor(other) and tn.numel(other) != 1:
+                raise InvalidArguments(
+                    'If a torch.Tensor is provided as second operand, it must have 1 element.')
             # divide by a scalar
             cores_new = self.cores.copy()
             cores_new[0] = cores_new[0] / other
